@@ -30,7 +30,27 @@ def run(args):
             continue
         na += 1
         t = sexp(f.get("body"))
-        ok = "(return (atan2 (imag this) (real this)))" in t
+        # semantic form: evaluated over the coefficient symbols, angle() must be atan2(<what imag() returns>, <what real() returns>)
+        from . import polyeval as P
+        from . import symeval as S
+        ok = False
+        try:
+            S.POLY = True
+            sym = P.PolySym(F)
+            n_rep = 2 if v == "SO2" else 4
+            m = S.Mat(n_rep, 1)
+            m.cells = [S.Aff.sym("a%d" % i) for i in range(n_rep)]
+            X = S.Obj(S.View(m, 0, 0, n_rep, 1))
+            fre = next(g for g in F.functions if g["kind"] == "inst" and g.get("cls") == cls and g["short"] == "real" and "Map" not in str(g.get("clsargs")))
+            fim = next(g for g in F.functions if g["kind"] == "inst" and g.get("cls") == cls and g["short"] == "imag" and "Map" not in str(g.get("clsargs")))
+            ang = sym.call_function(f, X, [])
+            re_ = S.scalarize(sym.call_function(fre, X, []))
+            im_ = S.scalarize(sym.call_function(fim, X, []))
+            ok = isinstance(ang, P.AngleOf) and ang.s == im_ and ang.c == re_ and re_ != im_
+        except Exception:   # noqa
+            ok = False
+        finally:
+            S.POLY = False
         rep.obligation(ok, lambda f=f, t=t: C.Finding("C03", "R-FWD.angle", f["name"], "angle() is not atan2(imag(), real()): %s" % t[:160], f["file"], f["line"]))
     rep.floor("switch_functions", nf, 3)
     rep.floor("observables_compared", no + no2, 4)
